@@ -138,7 +138,8 @@ def barycentric_table(ctx):
     for st in ast.walk(loop):
         if isinstance(st, ast.Assign) and isinstance(st.targets[0], ast.Name) and isinstance(st.value, ast.Name) and st.value.id == "number_of_vertices":
             mid_name = st.targets[0].id
-    if not (mid_ok and edge_ok and lvi_name and mid_name):
+    # (what the two kinds of vertices *are* is decided by rule BARY-VERTICES; here only their names are needed)
+    if not (lvi_name and mid_name):
         raise AnalysisError("barycentric connectivity: cannot establish the meaning of the midpoint / barycentre vertices")
     table = {}
     for st in ast.walk(loop):
